@@ -18,7 +18,59 @@ from fractions import Fraction as Fr
 from harness import c02_gen as G
 from harness import c02_x as X
 from harness import c10_x as E
-from harness.common import Ctx, coq_list
+from harness.common import Ctx, REPO, coq_Q, coq_bool, coq_list, git_blob
+from harness.c02 import T_HEADER, t_term
+from translators import c10_sql as TS
+
+PHASES = ["predict", "compare_two_records", "realtime", "find_matches", "missing_edges"]
+S_HEADER = T_HEADER.replace("From Splinkv Require Import Base.TV Model.Scoring.",
+                            "From Splinkv Require Import Base.TV Model.Blocking Model.Scoring Model.EntryPoints.") + """
+Fixpoint all2 {A B} (f : A -> B -> bool) (l : list A) (l' : list B) : bool :=
+  match l, l' with [] , [] => true | x :: t, y :: t' => f x y && all2 f t t' | _, _ => false end.
+Definition onx_eqb (a b : option nx) : bool :=
+  match a, b with Some x, Some y => nx_eqb x y | None, None => true | _, _ => false end.
+(* one captured scoring pipeline: phase (0 predict, 1 compare_two_records, 2 realtime, 3 find_matches,
+   4 missing edges), its t_case, the outer filter over the predict stage, the anti-join if present *)
+Definition s_entry := (nat * t_case * option (cmpop * Q) * option (option (jbx * jbx)))%type.
+Definition same_scoring (a b : t_case) : bool :=
+  match a, b with (_, _, _, g, bs, ts, f), (_, _, _, g', bs', ts', f') =>
+    all2 nx_eqb g g' && all2 nx_eqb bs bs' && all2 onx_eqb ts ts'
+    && nx_eqb (f_weight_arg f) (f_weight_arg f') && nx_eqb (f_prob f) (f_prob f')
+  end.
+(* entries, find_matches thresholds, predictions supplied, exact (dyadic parameters: literals comparable with the generators) *)
+Definition s_case := (list s_entry * list Q * bool * bool)%type.
+(* threshold clause of the predict stage alone (parameters whose float quotient m/u is not exact) *)
+Definition where_ok (c : t_case) : bool :=
+  match c with (_, _, thr, _, _, _, f) =>
+    match thr, f_where f with
+    | None, None => true
+    | Some t, Some (a, op, t') => nx_eqb a (f_weight_arg f) && cmpop_eqb op OpGe && Qclose (1 # 1000000000000) t' t
+    | _, _ => false
+    end
+  end.
+(* 0 every pipeline = model generators; 1 every pipeline = predict's pipeline; 2 outer filter only in
+   find_matches, strict >, threshold as passed; 3 anti-join only in missing edges and canonical; 4 all five phases seen *)
+Definition s_report (c : s_case) : list bool :=
+  match c with (es, fmthr, supplied, exact) =>
+    let tc := fun e : s_entry => snd (fst (fst e)) in
+    let ph := fun e : s_entry => fst (fst (fst e)) in
+    [ forallb (fun e => if exact then t_ok (tc e) else where_ok (tc e)) es;
+      match es with [] => false | e0 :: _ => forallb (fun e => same_scoring (tc e0) (tc e)) es end;
+      forallb (fun e => match snd (fst e) with
+                        | None => negb (Nat.eqb (ph e) 3)
+                        | Some (op, t) => Nat.eqb (ph e) 3 && cmpop_eqb op OpGt && existsb (Qeq_bool t) fmthr
+                        end) es;
+      forallb (fun e => match snd e with
+                        | None => negb (Nat.eqb (ph e) 4)
+                        | Some j => Nat.eqb (ph e) 4 && anti_join_ok j supplied
+                        end) es;
+      forallb (fun k => existsb (fun e => Nat.eqb (ph e) k) es) (seq 0 5) ]
+  end.
+Definition s_ok (c : s_case) : bool := forallb (fun b => b) (s_report c).
+"""
+S_PARTS = ["an entry point's scoring SQL differs from the model's generators / its threshold clause is not >= threshold", "an entry point's scoring SQL differs from predict()'s",
+           "outer filter (find_matches must use match_weight > threshold; no other entry point filters)",
+           "anti-join of missing-edge scoring (LEFT JOIN on both keys, WHERE both NULL)", "scoring stage not found for some entry point"]
 
 
 def gen_case(rng, backend, exact=False):
@@ -26,19 +78,22 @@ def gen_case(rng, backend, exact=False):
     if exact:
         spec = G.gen_spec(rng, "P2", allow_inf=False, ncmp=rng.choice([1, 2, 3]))
     else:
-        spec = G.gen_spec(rng, "X", allow_inf=allow_inf)
+        mode = "T" if rng.random() < 0.3 else "X"      # T: dyadic parameters (SQL literals comparable with the generators)
+        spec = G.gen_spec(rng, mode, allow_inf=allow_inf)
         # models with TF adjustments are the interesting ones here
         for _ in range(3):
             if spec["tf_cols"] or rng.random() < 0.25:
                 break
-            spec = G.gen_spec(rng, "X", allow_inf=allow_inf)
-    rows = X.gen_data(rng, rng.randint(5, 8))
+            spec = G.gen_spec(rng, mode, allow_inf=allow_inf)
+    spec["link_type"] = rng.choice(["dedupe_only", "dedupe_only", "link_only", "link_only", "link_and_dedupe", "link_and_dedupe"])
+    rows = E.gen_tables(rng, spec["link_type"])
     lookups = {} if exact else X.gen_lookups(rng, spec, rows)
     r = rng.random()
     fm_thr = {"row": rng.randint(0, 40)} if (exact or r < 0.5) else rng.choice([-4.0, 0.0, -10.0, 2.5, -1e5])
     me_thr = None if rng.random() < 0.5 else rng.choice([-6.0, 0.0, -2.5, 3.0])
     return {"spec": spec, "rows": rows, "lookups": lookups, "rules": ["1=1"], "backend": backend,
-            "n_c2r": 3, "n_rt": 2, "cold": rng.random() < 0.5, "fm_rules": rng.choice(E.FM_RULES),
+            "n_c2r": 3, "n_rt": 3, "rt_cache": rng.choice([[False, True, True], [True, True, False], [True, False, True]]),
+            "cold": rng.random() < 0.5, "fm_rules": rng.choice(E.FM_RULES),
             "fm_thr": fm_thr, "me_thr": me_thr, "exact_thr": exact, "seed": rng.randrange(10 ** 9)}
 
 
@@ -50,8 +105,7 @@ def cross_check(case, res):
         name, rl, rr, tfv, rec, key = e
         if key is None or name == "predict":
             continue
-        i, j = key
-        p = res["predmap"].get((min(i, j), max(i, j)))
+        p = res["predmap"].get(key)
         if p is None:
             continue
         n += 1
@@ -70,7 +124,7 @@ def cross_check(case, res):
         elif abs(a - b) > 1e-9 * max(1.0, abs(b)):
             diffs.append(("match_weight", a, b))
         if diffs:
-            bad.append({"entry": name, "pair": key, "differences": diffs, "left": rl, "right": rr})
+            bad.append({"entry": name, "pair": sorted(key), "differences": diffs, "left": rl, "right": rr})
     return n, bad
 
 
@@ -85,8 +139,16 @@ def run_cases(ctx: Ctx, cases, tag="C10"):
     results = []
     for case in cases:
         rng = random.Random(case["seed"])
+        log, box = [], {}
+
+        def hook(api, phase, log=log, box=box):
+            if not getattr(api, "_c10_captured", False):
+                TS.capture(api, log, box)
+                api._c10_captured = True
+            box["phase"] = phase
         try:
-            res = E.run_entries(case, rng)
+            res = E.run_entries(case, rng, hook)
+            res["sql_log"] = log
         except AssertionError:
             raise
         except Exception as ex:
@@ -124,8 +186,82 @@ def run_cases(ctx: Ctx, cases, tag="C10"):
     return results, live, sc_infos, (bad_sc, bad_fm, bad_me), errs1 + errs2 + errs3, details
 
 
+def sql_stage(ctx: Ctx, live, tag="C10"):
+    """T: the scoring SQL really executed by each entry point = the model's generators = predict()'s;
+    find_matches' outer filter is a strict >; missing-edge anti-join is canonical."""
+    terms, metas, untr = [], [], []
+    for case, res in live:
+        lk = res["linker"]
+        so = lk._settings_obj
+        dialect = so._sqlglot_dialect
+        spec = case["spec"]
+        entries, seen = [], set()
+        try:
+            texts = set()
+            for ph, sql in res["sql_log"]:
+                if ph not in PHASES or "__splink__df_match_weight_parts" not in sql:
+                    continue
+                norm = (ph, re.sub(r"(__splink__\w+?)_[0-9a-z]{8,9}\b", r"\1", sql))
+                if norm in texts:          # same text up to physical-table uids
+                    continue
+                texts.add(norm)
+                tr = TS.scoring_of(sql, so, spec["tf_cols"], dialect)
+                if tr is None:
+                    continue
+                thrq = Fr(case["me_thr"]) if (ph == "missing_edges" and case["me_thr"] is not None) else None
+                aj = "None" if tr["anti_join"] is None else f"(Some {tr['anti_join']})"
+                txt = f"({PHASES.index(ph)}%nat, {t_term(spec, tr, thrq)}, {tr['outer_where']}, {aj})"
+                if txt not in seen:
+                    seen.add(txt)
+                    entries.append((ph, txt))
+        except TS.Untranslatable as ex:
+            ctx.obligation("translate captured scoring SQL", False, str(ex))
+            untr.append((case, ph, str(ex)))
+            continue
+        entries.sort(key=lambda e: PHASES.index(e[0]))
+        fmthr = [Fr(repr(float(-1e6))), Fr(repr(float(res["fm"]["thr"])))]
+        supplied = "c10_pred" in " ".join(sql for ph, sql in res["sql_log"] if ph == "missing_edges" and "__splink__df_predict_with_join_keys" in sql)
+        terms.append(f"({coq_list([t for _, t in entries], 's_entry')}, {coq_list([coq_Q(t) for t in fmthr], 'Q')}, {coq_bool(supplied)}, "
+                     f"{coq_bool(spec.get('mode') in ('T', 'P2'))})")
+        metas.append((case, [ph for ph, _ in entries]))
+        ctx.hist("T_pipelines_per_case", len(entries))
+    bad, errs = ctx.eval_cases(tag + "_sql", S_HEADER, terms, "s_ok", shard=4, timeout=900)
+    for e in errs:
+        ctx.obligation("SQL identity shard evaluation", False, e)
+    ctx.obligations += len(terms)
+    ctx.discharged += (len(terms) - len(bad)) if not errs else 0
+    ctx.cov["sql_identity_obligations"] = len(terms)
+    ctx.cov["translated_sources"] = {q: git_blob(REPO / q) for q in
+                                     ["splink/internals/linker_components/inference.py", "splink/internals/realtime.py",
+                                      "splink/internals/predict.py", "splink/internals/find_matches_to_new_records.py"]}
+    parts = {}
+    if bad:
+        sel = bad[:10]
+        txt = S_HEADER + "Definition cs := " + coq_list([terms[i] for i in sel]) + ".\nEval vm_compute in (map s_report cs).\n"
+        ok, out = ctx.coqc_text(tag + "_sqlrep", txt)
+        reps = re.findall(r"\[((?:true|false)(?:; (?:true|false))*)\]", " ".join(out.split()))
+        for i, r in zip(sel, reps):
+            parts[i] = [S_PARTS[k] for k, b in enumerate(r.split("; ")) if b == "false"]
+    seen = set()
+    for i in bad:
+        ps = parts.get(i, ["(not evaluated)"])
+        key = json.dumps(ps)
+        if key in seen or len(seen) >= 2 or (seen and ps == ["(not evaluated)"]):
+            continue
+        seen.add(key)
+        case, phases = metas[i]
+        ctx.violation("captured entry-point SQL breaks a skeleton obligation: " + "; ".join(ps),
+                      {"broken": "SQL identity obligation C10_sql", "parts": ps, "case": case, "pipelines": phases},
+                      {"skeleton": True, "parts": ps, "backend": case["backend"]}, found_input=False)
+    for case, ph, why in untr[:2]:
+        ctx.violation(f"scoring SQL of {ph} no longer matches any shape the translator understands: " + why,
+                      {"broken": "translator c10_sql", "case": case}, {"untranslatable": True}, found_input=False)
+    if errs and not bad:
+        ctx.violation("SQL identity obligations could not be evaluated", {"broken": "C10_sql", "errors": errs[:3]}, found_input=False)
+
+
 def features(case, extra):
-    f = {"backend": case["backend"], "has_tf": bool(case["spec"]["tf_cols"]), "registered_lookup": bool(case["lookups"])}
+    f = {"backend": case["backend"], "link_type": case["spec"]["link_type"], "has_tf": bool(case["spec"]["tf_cols"]), "registered_lookup": bool(case["lookups"])}
     f.update(extra)
     return f
 
@@ -200,7 +336,10 @@ def run(ctx: Ctx):
         "blocking rules of find_matches evaluated per pair by DuckDB; TF values recomputed in Python (count/total or the registered table)",
         "engine POW for fractional weights: finite table from Python math.pow on model-checked exact base and exponent",
         "float tolerance 1e-9 relative; pairs whose score is within 1e-9 of a threshold are not compared (except power-of-two stream)",
-        "modelled not verified: SQL join/anti-join semantics of the entry points (EntryPoints.v compositions), id fix-up literals",
+        "translators/c10_sql.py + c02_sql.py (sqlglot parse of the SQL text captured from DatabaseAPI._execute_sql_against_backend; "
+        "stage lookup by CTE name; table aliases / physical names / uids are not part of the skeletons)",
+        "modelled not verified: SQL join semantics of the entry points (EntryPoints.v compositions), id fix-up literals, "
+        "the definition of join_key_l/r in __splink__df_predict_with_join_keys",
     ]
     ok = ctx.proof_stage("Properties/C10.v")
     if not ok:
@@ -235,11 +374,14 @@ def run(ctx: Ctx):
         disagreements += [(case, b) for b in bad]
         gam = {json.dumps([r[4].get(f"gamma_{c['name']}") for c in case["spec"]["comparisons"]]) for r in res["entries"]}
         ctx.count_case(json.dumps(case, sort_keys=True, default=str), bool(case["spec"]["tf_cols"]) and len(gam) >= 2,
-                       {"backend": case["backend"], "tf_cols": case["spec"]["tf_cols"], "lookups": sorted(case["lookups"]),
+                       {"backend": case["backend"], "link_type": case["spec"]["link_type"], "tf_cols": case["spec"]["tf_cols"], "lookups": sorted(case["lookups"]),
                         "rows": len(case["rows"]), "scored_rows": len(res["entries"]), "fm_rules": case["fm_rules"],
                         "fm_out": len(res["fm"]["impl"]), "me_out": len(res["me"]["impl"])})
         ctx.cov["evaluations"] += len(res["entries"])
         ctx.hist("backend", case["backend"])
+        ctx.hist("link_type", case["spec"]["link_type"])
+        ctx.hist("n_tables", len({r["source_dataset"] for r in case["rows"]}))
+        ctx.hist("fm_new_source_dataset_column", res["fm"]["new_source_dataset_column"])
         ctx.hist("has_tf", bool(case["spec"]["tf_cols"]))
         ctx.hist("registered_lookup", bool(case["lookups"]))
         ctx.hist("fm_rules", len(case["fm_rules"]))
@@ -249,6 +391,7 @@ def run(ctx: Ctx):
         ctx.hist("exact_threshold_stream", bool(case.get("exact_thr")))
         for e in res["entries"]:
             ctx.hist("entry", e[0])
+    sql_stage(ctx, live)
     ctx.cov["cross_entry_comparisons"] = nagree
     ctx.obligation(f"entry points agree with predict() on gamma and match weight ({nagree} row pairs)", not disagreements)
     report(ctx, *out)
